@@ -1,2 +1,30 @@
-From BMC Require Import Base.
-Theorem C19_placeholder : True. Proof. exact I. Qed.
+(* C19 — independent connections do not interfere (PARTIAL: data-race freedom
+   in the Go memory model is observed with the race detector, not proved). *)
+From Coq Require Import List Arith.
+From BMC Require Import Interleave.
+From BMCProps Require Import Tie.
+
+(* under every interleaving of any number of connections, each connection's final state and outputs
+   (datagrams, results) are those of its solo run *)
+Theorem C19_independent : forall (St Inp Out : Type) (step : St -> Inp -> St * Out * nat) sched st outs ctr i,
+  let '(st', outs', _) := run St Inp Out step sched st outs ctr in
+  let '(s, o, _) := solo St Inp Out step (project Inp i sched) (st i) (outs i) 0 in
+  st' i = s /\ outs' i = o.
+Proof. exact independent_outputs. Qed.
+
+(* and the shared (commutative) counters end at the sum of the solo counts *)
+Theorem C19_counters : forall (St Inp Out : Type) (step : St -> Inp -> St * Out * nat) sched st outs ctr ids,
+  NoDup ids -> (forall e, In e sched -> In (fst e) ids) ->
+  snd (run St Inp Out step sched st outs ctr) =
+  ctr + sum_over ids (fun i => solo_count St Inp Out step i sched st).
+Proof. exact independent_counter. Qed.
+
+(* the premise that a step depends on nothing but its own connection: no function of the library writes a
+   package-level variable (checked against the footprint regenerated from the source on this run); the
+   only entries are addresses of read-only Operation / PayloadDescriptor values and the init-time
+   registration API *)
+(* the set of package-level variables is exactly the reviewed one (error values, metric handles, read-only tables) *)
+Theorem C19_package_vars : G.package_vars = expected_package_vars.
+Proof. exact tie_package_vars. Qed.
+Theorem C19_footprint : forallb allowed_write G.global_writes = true.
+Proof. exact tie_footprint. Qed.
